@@ -14,6 +14,9 @@ var headingTexts = []string{"a", "A", "a-1", "a_1", "a 1", "", "#", "!!!", "é",
 	"*a*", "`a`", "a  b", "a-b", "A B", "id", "heading-2", "[a](/u)", "a\\*", "&amp;", "-", "_", "a-2", "1-1", "Heading", " a ", "a#", "release notes", "Release Notes", "getting started fast", "a b c",
 	// texts that differ only in the case of non-ASCII letters
 	"É", "Été", "été", "über uns", "Über uns", "ÜBER UNS", "Σ", "σ", "ς", "ВВЕДЕНИЕ", "Введение", "введение", "İ", "i̇", "ǅ", "ǆ", "日本 A", "日本 a",
+	// an empty named anchor in front of the text (an id chosen by the author the old way), with
+	// names that other headings of the pool slug to
+	"<a name=\"a\"></a>x", "<a name='a-1'></a>y", "<a name=\"heading\"></a>", "<a id=\"a\"></a>z", "<a name=\"1\"></a>1", "<a name=\"x\"></a>a",
 	// texts that slug to separators only, or to nothing but a separator after the fallback
 	"- -", "--", "_ _", "\\_", "- _ -", "-a-", "--a", "a--"}
 
@@ -246,7 +249,7 @@ func genFamily(r *Rng, fam string) []byte {
 			}
 		}
 	case "typo":
-		opts := []string{"\"unbalanced %s\n", "closing\" and 'x' %s\n", "'tis %s's -- and --- ... <<x>>\n", "\"a 'b' c\" %s\n", "%s' \"\n", "'' `` \" ' %s\n"}
+		opts := []string{"\"...%s...\" --\"'x'\"--- '...' ...\"\n", "\"'%s'\" ---... <<\"x\">> --...\n", "\"unbalanced %s\n", "closing\" and 'x' %s\n", "'tis %s's -- and --- ... <<x>>\n", "\"a 'b' c\" %s\n", "%s' \"\n", "'' `` \" ' %s\n"}
 		fmt.Fprintf(&b, pick(r, opts), word(r))
 	case "table":
 		al := []string{":--", ":-:", "--:", "---"}
@@ -419,6 +422,15 @@ func genFamily(r *Rng, fam string) []byte {
 	case "quote":
 		fmt.Fprintf(&b, "> %s\n> > %s\nlazy %s\n\n> - %s\n", word(r), word(r), word(r), word(r))
 	case "link":
+		if rm := r.Split("emails"); rm.Chance(1, 6) {
+			// e-mail autolinks at the limits of the address grammar: domain labels of 62..65
+			// characters, many labels, hyphens at label ends
+			for i := rm.Range(1, 4); i > 0; i-- {
+				l := strings.Repeat(pick(rm, []string{"a", "x1", "b-c"}), 80)[:pick(rm, []int{1, 2, 61, 62, 63, 64, 65, 80})]
+				fmt.Fprintf(&b, "<%s@%s.%s> %s@%s.example.com\n", word(rm), l, pick(rm, []string{"com", l, "a-"}), word(rm), l)
+			}
+			break
+		}
 		if rs := r.Split("schemes"); rs.Chance(1, 2) {
 			// destinations of both verdicts of the URL filter next to each other: script-capable
 			// schemes (any case, with unique tails sometimes), harmless look-alikes, the data:
@@ -1036,6 +1048,7 @@ func biasConfig(r *Rng, c Config, fam string) Config {
 		c.Typographer = true
 		c.TypoSubs = r.Chance(1, 3)
 		c.TypoAll = c.TypoSubs && r.Split("typo-all").Chance(1, 2)
+		c.TypoShort = c.TypoSubs && r.Split("typo-short").Chance(1, 3)
 	case "heading":
 		c.AutoID = true
 	case "attr":
